@@ -1,6 +1,7 @@
 package flow
 
 import (
+	"regexp/syntax"
 	"go/token"
 
 	"golang.org/x/tools/go/ssa"
@@ -60,3 +61,6 @@ func StripConv(v ssa.Value) ssa.Value       { return stripConv(v) }
 
 // WrittenOnlyByInit: no function of the module other than a package initialiser stores to g or lets its address escape.
 func (c *Ctx) WrittenOnlyByInit(g *ssa.Global) bool { return c.writtenOnlyByInit(g) }
+
+// MinLen: length of the shortest word of the regular expression.
+func MinLen(re *syntax.Regexp) int { return minLen(re) }
